@@ -146,6 +146,10 @@ func runCorpus(c *vkit.Collector, g *gen) {
 		violate(c, "ConvexHull.antipodal-input", "input contains an exactly antipodal pair but the hull is not the full loop and is invalid: "+h.Validate().Error(),
 			map[string]interface{}{"input": chainJSON(hin), "hull": chainJSON(h.Vertices()), "cap_height": fmt.Sprint(hq.CapBound().Height())})
 	}
+	// regression (fixed by /repo bc3af1c): Cap.RectBound of this cap had Lng = [-pi, 0], an invalid interval
+	capNeg := s2.VerifC10CapFromChord(raw(0, -1, 0), 1.9999999999999996)
+	c.Check("corpus Cap.RectBound -pi endpoint", vkit.App("s2_Rect_eqbits", vkit.App("s2_Cap_RectBound", capT(capNeg)), rectT(capNeg.RectBound())))
+	searchCap(c, g, capNeg)
 	// Cap.RectBound: cap of radius just under pi/2 centred on the equator
 	cp := s2.VerifC10CapFromChord(raw(0, 1, 0), 1.999999999771825)
 	searchCapPoint(c, cp, raw(hx("0x1.f30dcfcff036cp-01"), hx("0x1.f5c311a626331p-34"), hx("-0x1.c9a19f944e524p-03")))
